@@ -246,5 +246,50 @@ def run(ctx):
         nagg += 1
         if abs(inc - doc) > 1e-4 * max(1.0, doc):
           ctx.violation('agg:uniform_arithmetic:bits', f'arithmetic coding: round {rnd + 1} added {inc} bits, the cost of the transmitted tree is {doc}', replay={'round': rnd + 1})
+  # "all level counts >= 2": 16-bit quantisation. A vector on the grid passes through unchanged and no output leaves
+  # [min, max] (a quarter of a grid step of slack for float32 rescaling)
+  for L in (65537, 65536, 257):
+    grid = jnp.arange(L, dtype=jnp.float32)
+    rnd_v = jnp.array(nprng.uniform(-3, 5, size=(204800,)), jnp.float32)
+    for kk in range(3):
+      k_ = jax.random.PRNGKey(7000 + kk + ctx.seed)
+      nagg += 1
+      ctx.case(key=('levels', L, kk), nontrivial=True)
+      out_g = np.asarray(cp.uniform_stochastic_quantize(grid, L, k_), np.float64)
+      moved = int(np.sum(np.abs(out_g - np.arange(L)) > 0.25))
+      if moved:
+        ctx.violation('uniform:on-grid-identity:many-levels', f'{moved} of the {L} entries of arange({L}) (every one a grid level for {L} levels) moved to another level (key {7000 + kk + ctx.seed})',
+                      replay={'levels': L, 'key': 7000 + kk + ctx.seed})
+      out_r = np.asarray(cp.uniform_stochastic_quantize(rnd_v, L, k_), np.float64)
+      lo_, hi_ = float(np.min(np.asarray(rnd_v))), float(np.max(np.asarray(rnd_v)))
+      step_ = (hi_ - lo_) / (L - 1)
+      outside = int(np.sum((out_r > hi_ + step_ / 4) | (out_r < lo_ - step_ / 4)))
+      if outside or not np.all(np.isfinite(out_r)):
+        ctx.violation('uniform:outside-range:many-levels', f'{outside} of 204800 quantised values lie outside [min, max] = [{lo_}, {hi_}] by more than a quarter grid step with {L} levels',
+                      replay={'levels': L, 'key': 7000 + kk + ctx.seed})
+  # "all random keys": the rotation-based aggregators under the legacy (non-partitionable) threefry implementation too, on leaves
+  # whose size is not a power of two: DRIVE keeps <x_hat, x> = |x|^2, the rotated quantiser stays unbiased (mean of 200 rounds)
+  for legacy in (False, True):
+    with jax.threefry_partitionable(not legacy):
+      for size in ((50,), (5, 10), (3,)):
+        x = np.asarray(nprng.uniform(-1, 1, size=size), np.float32)
+        tree = {'w': jnp.array(x)}
+        nagg += 1
+        ctx.case(key=('prng-impl', legacy, size), nontrivial=legacy)
+        cfg = dict(leaf_shape=list(size), threefry_partitionable=not legacy)
+        agg_d = cp.structured_drive_quantizer(jax.random.PRNGKey(31 + ctx.seed))
+        o_d, _ = agg_d.apply([(b'a', tree, 1.0)], agg_d.init())
+        ratio = float(np.sum(np.asarray(o_d['w'], np.float64) * x) / np.sum(x.astype(np.float64) ** 2))
+        if not np.isfinite(ratio) or abs(ratio - 1) > 1e-3:
+          ctx.violation('agg:drive:scale', f'DRIVE: <x_hat, x> / |x|^2 = {ratio}, the scale is chosen so that it is 1, for {cfg}', replay={'cfg': cfg})
+        agg_r = cp.rotated_uniform_stochastic_quantizer(4, jax.random.PRNGKey(32 + ctx.seed))
+        st_r = agg_r.init()
+        acc = np.zeros(size, np.float64)
+        for _ in range(200):
+          o_r, st_r = agg_r.apply([(b'a', tree, 1.0)], st_r)
+          acc += np.asarray(o_r['w'], np.float64)
+        rel = float(np.linalg.norm(acc / 200 - x) / np.linalg.norm(x))
+        if not np.isfinite(rel) or rel > 0.3:
+          ctx.violation('agg:rotated_uniform:biased', f'rotated quantiser: the mean of 200 rounds is {rel:.2f} |x| away from x (one client, weight 1) for {cfg}', replay={'cfg': cfg})
   ctx.trace_ok(nagg)
   ctx.leg('R', aggregator_runs=nagg)
